@@ -339,6 +339,13 @@ fn hostile_pkps<C: Suite>(ctx: &mut Ctx, w: &World<C>) -> Vec<(String, PublicKey
     let mut m = vs.clone();
     m.remove(&g0.ids[0]);
     out.push(("first-signer-missing".into(), PublicKeyPackage::new(m, vk, Some(g0.t))));
+    // the package a group holds after one of its members was removed by a refresh: every single member missing in turn,
+    // so that whoever the caller is, one variant lacks the caller itself
+    for (k, id) in g0.ids.iter().enumerate().skip(1).take(4) {
+        let mut m = vs.clone();
+        m.remove(id);
+        out.push((format!("member{k}-missing"), PublicKeyPackage::new(m, vk, Some(g0.t))));
+    }
     out.push(("other-group".into(), w.other.pkp.clone()));
     out.push(("other-group-key".into(), PublicKeyPackage::new(vs.clone(), *w.other.pkp.verifying_key(), Some(g0.t))));
     let mut m = vs.clone();
@@ -649,6 +656,32 @@ fn protocol<C: Suite>(ctx: &mut Ctx, entry: &str) {
                             }
                         }
                         ctx.class(format!("refresh_dkg/{n1}"));
+                    }
+                    // a completely honest refresh run, finished with every hostile public key package: only the package
+                    // (peer material: it is what the group distributes) is wrong, so the call gets as far as it can
+                    let mut all_r1 = honest_r1.clone();
+                    if let Ok((rs1b, mine)) = C::api_refresh_dkg_part1(me, n, t, &mut rng) {
+                        all_r1.insert(me, mine);
+                        let inbox = |who: &Identifier<C>| {
+                            let mut m = all_r1.clone();
+                            m.remove(who);
+                            m
+                        };
+                        if let Ok((sec2_me, _)) = C::api_refresh_dkg_part2(rs1b, &inbox(&me)) {
+                            let mut honest_r2 = BTreeMap::new();
+                            for (j, sj) in &secs {
+                                if let Ok((_, out)) = C::api_refresh_dkg_part2(sj.clone(), &inbox(j)) {
+                                    if let Some(pk) = out.get(&me) {
+                                        honest_r2.insert(*j, pk.clone());
+                                    }
+                                }
+                            }
+                            for (kn, pkp) in &pkps_all {
+                                guarded(ctx, "refresh_dkg_shares", format!("honest-run|{kn}").as_bytes(), || C::api_refresh_dkg_shares(&sec2_me, &inbox(&me), &honest_r2, pkp.clone(), kp.clone()).is_ok());
+                                calls += 1;
+                            }
+                            ctx.class("refresh_dkg/honest-run-hostile-package");
+                        }
                     }
                 }
             }
